@@ -27,7 +27,11 @@ import (
 
 // c02WrapperOpener returns the connection opener that fluentdforward.NewClientWorker / datadog.NewClientWorker
 // hand to baseoutput.NewClientWorker (taken from a worker that is never started), and the max session duration.
-func c02WrapperOpener(flavor int, addr string) (baseoutput.EstablishConnectionFunc, time.Duration) {
+func c02WrapperOpener(flavor int, addr string, httpTimeout ...time.Duration) (baseoutput.EstablishConnectionFunc, time.Duration) {
+	hto := c02SendTimeout
+	if len(httpTimeout) > 0 {
+		hto = httpTimeout[0]
+	}
 	closed := channels.NewSignalAwaitable()
 	args := base.ChunkConsumerArgs{InputChannel: make(chan base.LogChunk), InputClosed: closed,
 		OnChunkConsumed: func(base.LogChunk) {}, OnChunkLeftover: func(base.LogChunk) {}, OnFinished: func() {}}
@@ -38,7 +42,7 @@ func c02WrapperOpener(flavor int, addr string) (baseoutput.EstablishConnectionFu
 	var worker base.ChunkConsumer
 	if flavor == 3 {
 		worker = datadog.NewClientWorker(logger.WithField("c02", "datadog"), args, mf,
-			datadog.UpstreamConfig{Address: "http://" + addr + "/v2/logs", HTTPTimeout: c02SendTimeout})
+			datadog.UpstreamConfig{Address: "http://" + addr + "/v2/logs", HTTPTimeout: hto})
 	} else {
 		worker = fluentdforward.NewClientWorker(logger.WithField("c02", "fluentd"), args,
 			fluentdforward.UpstreamConfig{Address: addr, MaxDuration: time.Hour}, mf)
@@ -140,8 +144,14 @@ func c02NewFluentd(w *c02World) *c02Fluentd {
 	dead := d.Addr().String()
 	d.Close()
 	f := &c02Fluentd{w: w, ln: ln}
-	f.live, _ = c02WrapperOpener(w.scn.Flavor, ln.Addr().String())
-	f.dead, _ = c02WrapperOpener(w.scn.Flavor, dead)
+	if w.scn.Flavor == 3 && len(w.scn.Http) > 0 {
+		// family I: no scripted hang; a timeout far beyond any scheduling delay, so that the i-th POST belongs to the i-th call
+		f.live, _ = c02WrapperOpener(3, ln.Addr().String(), c02DDTimeout)
+		f.dead, _ = c02WrapperOpener(3, dead, c02DDTimeout)
+	} else {
+		f.live, _ = c02WrapperOpener(w.scn.Flavor, ln.Addr().String())
+		f.dead, _ = c02WrapperOpener(w.scn.Flavor, dead)
+	}
 	if w.scn.Flavor == 3 {
 		f.srv = &http.Server{Handler: http.HandlerFunc(f.serveHTTP)}
 		go func() { _ = f.srv.Serve(ln) }()
@@ -153,6 +163,10 @@ func c02NewFluentd(w *c02World) *c02Fluentd {
 
 // serveHTTP is the fake Datadog intake: the body of a request is the chunk id.
 func (f *c02Fluentd) serveHTTP(rw http.ResponseWriter, rq *http.Request) {
+	if len(f.w.scn.Http) > 0 {
+		f.serveStatus(rw, rq)
+		return
+	}
 	_, _ = io.ReadAll(rq.Body)
 	f.mu.Lock()
 	out := c02At(f.w.scn.Send, f.nChunk)
@@ -276,6 +290,7 @@ type c02RealConn struct {
 func (c *c02RealConn) Logger() logger.Logger { return c.inner.Logger() }
 
 func (c *c02RealConn) SendChunk(chunk base.LogChunk, deadline time.Time) error {
+	r0 := c.w.ddBefore()
 	err := c.inner.SendChunk(chunk, deadline)
 	c.w.mu.Lock()
 	defer c.w.mu.Unlock()
@@ -283,6 +298,7 @@ func (c *c02RealConn) SendChunk(chunk base.LogChunk, deadline time.Time) error {
 	if err != nil {
 		ok = 0
 	}
+	c.w.ddAfter(r0, chunk, err)
 	c.w.log(c02SendRet, int64(c.k), c02IDNum(chunk.ID), ok)
 	return err
 }
